@@ -822,4 +822,51 @@ theorem expected_snd_le (start : Nat) (s : List (List Bytes)) :
   unfold expected at hp
   exact boundaries_le start s p.2 (List.of_mem_zip hp).2
 
+/-! ### Go's int64 arithmetic under the no-overflow hypothesis -/
+
+theorem int64_add_exact (x y : Int64) (hx : 0 ≤ x.toInt) (hy : 0 ≤ y.toInt)
+    (h : x.toInt + y.toInt < 2^63) : (x + y).toInt = x.toInt + y.toInt := by
+  rw [Int64.toInt_add]
+  apply Int.bmod_eq_of_le <;> omega
+
+theorem int64_ofNat_toInt (n : Nat) (h : n < 2^63) : (Int64.ofNat n).toInt = n := by
+  exact Int64.toInt_ofNat_of_lt h
+
+/-- `d.offset` as Go computes it: a wrapping int64 advanced by each read's length -/
+def count64 (pre : Int64) (ks : List Nat) : Int64 := ks.foldl (fun c k => c + Int64.ofNat k) pre
+
+theorem count64_exact (pre : Nat) (ks : List Nat) (h : pre + ks.sum < 2^63) :
+    (count64 (Int64.ofNat pre) ks).toInt = (pre + ks.sum : Nat) := by
+  induction ks generalizing pre with
+  | nil => simp [count64, int64_ofNat_toInt pre (by simpa using h)]
+  | cons k ks ih =>
+    simp only [List.sum_cons] at h
+    have hk : (Int64.ofNat pre + Int64.ofNat k) = Int64.ofNat (pre + k) := by
+      apply Int64.toInt_inj.mp
+      rw [int64_add_exact _ _ (by rw [int64_ofNat_toInt pre (by omega)]; omega)
+            (by rw [int64_ofNat_toInt k (by omega)]; omega)
+            (by rw [int64_ofNat_toInt pre (by omega), int64_ofNat_toInt k (by omega)]; omega),
+          int64_ofNat_toInt pre (by omega), int64_ofNat_toInt k (by omega), int64_ofNat_toInt (pre + k) (by omega)]
+      omega
+    have := ih (pre + k) (by omega)
+    simp only [count64, List.foldl_cons, List.sum_cons] at this ⊢
+    rw [hk, this]
+    congr 1; omega
+
+theorem boundaries_ge (start : Nat) (s : List (List Bytes)) : ∀ b ∈ boundaries start s, start ≤ b := by
+  induction s generalizing start with
+  | nil => simp [boundaries]
+  | cons c cs ih =>
+    intro b hb
+    simp only [boundaries, List.mem_cons] at hb
+    rcases hb with rfl | hb
+    · omega
+    · have := ih _ b hb; omega
+
+theorem expected_snd_ge (start : Nat) (s : List (List Bytes)) :
+    ∀ p ∈ expected start s, start ≤ p.2 := by
+  intro p hp
+  unfold expected at hp
+  exact boundaries_ge start s p.2 (List.of_mem_zip hp).2
+
 end GunYu.Resp
